@@ -1,0 +1,14 @@
+//go:build verif
+
+package cache
+
+// VerifYield, when installed by a test harness, is called at labelled points of
+// Transaction.With (only compiled with -tags verif). It may block there to
+// force an interleaving.
+var VerifYield func(label string, name string, tx *Transaction)
+
+func verifYield(label string, name string, tx *Transaction) {
+	if VerifYield != nil {
+		VerifYield(label, name, tx)
+	}
+}
